@@ -56,7 +56,15 @@ impl MultiPattern {
                 .0
                 .atoms
                 .last()
-                .map_or(true, |last| !last.negative)
+                .map_or(true, |last| {
+                    // Appending to the text can only restrict the matches if it extends the
+                    // needle of the last atom: not if that atom is negative, if it ends in a
+                    // `$` anchor (`foo$` -> `foo$a` turns a postfix atom into a fuzzy atom) or
+                    // in a backslash (`a\` -> `a\ b` turns the backslash into an escape).
+                    !last.negative
+                        && !matches!(last.kind, AtomKind::Postfix | AtomKind::Exact)
+                        && !last.needle_text().chars().next_back().map_or(false, |c| c == '\\')
+                })
         {
             self.cols[column].1 = Status::Update;
         } else {
